@@ -21,7 +21,7 @@ static std::string arr2(const std::vector<std::vector<unsigned char>> &v) { std:
     for (size_t i = 0; i < v.size(); ++i) { if (i) s += ","; s += "["; for (size_t j = 0; j < v[i].size(); ++j) { if (j) s += ","; s += std::to_string((unsigned)v[i][j]); } s += "]"; } return s + "]"; }
 static void tail(Ev &e) {
     e.bytes("out", out.data(), out.size()).raw("exec", arr2(execs)).ints("nul", nuls.begin(), nuls.end()).i("sig", sig);
-    if (kind == "c") e.i("len", V.rl.line.len).i("cursor", V.rl.line.cursor).bytes("gl", lb, G).bytes("gr", lb + G + cap, G).bytes("hgl", hb, G).bytes("hgr", hb + G + cap * depth, G);
+    if (kind == "c") e.i("len", V.rl.line.len).i("cursor", V.rl.line.cursor).bytes("gl", lb, G).bytes("gr", lb + G + cap, G).bytes("hgl", hb, G).bytes("hgr", hb + G + (size_t)cap * depth, G);
     else e.i("len", xx_len()).i("cursor", xx_cursor()).bytes("gl", "", 0).bytes("gr", "", 0).bytes("hgl", "", 0).bytes("hgr", "", 0);
 }
 static void sl_obs(Ev &e) {
@@ -39,7 +39,8 @@ int main(int argc, char **argv) {
     return run(argc, argv, [&](const std::vector<std::string> &t) {
         const std::string &op = t[0];
         if (op == "R") { kind = t[1]; cap = num(t[2]); depth = t.size() > 3 ? num(t[3]) : 1; out.clear(); execs.clear(); nuls.clear(); sig = 0;
-            if (kind == "c") { free(lb); free(hb); lb = (unsigned char *)malloc(cap + 2 * G); hb = (unsigned char *)malloc(cap * depth + 2 * G); memset(lb, 0xA5, cap + 2 * G); memset(hb, 0xA5, cap * depth + 2 * G);
+            if ((size_t)cap * depth > ((size_t)1 << 28)) { unsigned keep = g_op_timeout; if (keep) { g_op_timeout = 900; watchdog(true); g_op_timeout = keep; } }   // gigabytes to allocate and clear
+            if (kind == "c") { free(lb); free(hb); lb = (unsigned char *)malloc(cap + 2 * G); hb = (unsigned char *)malloc((size_t)cap * depth + 2 * G); memset(lb, 0xA5, cap + 2 * G); memset(hb, 0xA5, (size_t)cap * depth + 2 * G);
                 vterm_automate_init(&V, (char *)lb + G, cap, (char *)hb + G, depth); vterm_set_write_callback(&V, cw, 0); vterm_set_execute_callback(&V, ce, 0); vterm_set_signal_callback(&V, cs, 0);
                 vterm_automate_init_step(&V); Ev e("Reset"); e.str("kind", "c").i("cap", cap).i("depth", depth); tail(e); e.end(); }
             else if (kind == "xx") { xx_init(cap, depth); Ev e("Reset"); e.str("kind", "xx").i("cap", cap).i("depth", depth); tail(e); e.end(); }
